@@ -1,1 +1,89 @@
-// cfg(kani) child module of src/.../helpers.rs (see DESIGN.md §1.1)
+// cfg(kani) child module of src/helpers.rs: FollowFileIterator::next (real) over the I/O shim reader
+// (a symbolic file that grows while it is followed).  C10.
+#![allow(dead_code, unused_imports, unused_macros, static_mut_refs)]
+
+use std::fs::File;
+use std::mem::ManuallyDrop;
+use std::os::unix::io::FromRawFd;
+
+use crate::verif_kani::shim::io::{BufReader, SymFile, FILES, MAX_FILE, READ_BUDGET, READ_CALLS};
+
+use super::FollowFileIterator;
+
+/// the k-th newline-terminated line of content[..len]: (start, end) without the newline
+fn ref_line(content: &[u8; MAX_FILE], len: usize, k: usize) -> Option<(usize, usize)> {
+    let mut start = 0;
+    let mut seen = 0;
+    let mut i = 0;
+    while i < MAX_FILE {
+        if i < len && content[i] == b'\n' {
+            if seen == k { return Some((start, i)); }
+            seen += 1;
+            start = i + 1;
+        }
+        i += 1;
+    }
+    None
+}
+
+fn item_is(item: &Option<String>, content: &[u8; MAX_FILE], range: Option<(usize, usize)>) -> bool {
+    match (item, range) {
+        (None, _) => true, // delivery may stop early only because the follower was stopped (read budget)
+        (Some(_), None) => false,
+        (Some(s), Some((a, b))) => {
+            let bytes = s.as_bytes();
+            if bytes.len() != b - a { return false; }
+            let mut i = 0;
+            while i < MAX_FILE {
+                if i < bytes.len() && bytes[i] != content[a + i] { return false; }
+                i += 1;
+            }
+            true
+        }
+    }
+}
+
+/// Every way of writing a file of <= 4 bytes over {a, b, \n} and interleaving the appends with the
+/// follower's reads (the visible length may advance arbitrarily before every read): the items delivered
+/// are exactly the newline-terminated lines, in order, byte for byte; the tail is never delivered.
+macro_rules! follow_harness {
+    ($name:ident, $len:expr, $budget:expr, $unwind:expr) => {
+        #[kani::proof]
+        #[kani::unwind($unwind)]
+        #[kani::stub(alloc::fmt::format, crate::verif_kani::common::stub_format)]
+        fn $name() {
+            let content: [u8; MAX_FILE] = kani::any();
+            kani::assume((content[0] == b'a' || content[0] == b'b' || content[0] == b'\n')
+                && (content[1] == b'a' || content[1] == b'\n') && (content[2] == b'a' || content[2] == b'\n')
+                && (content[3] == b'a' || content[3] == b'\n'));
+            let initially: usize = kani::any();
+            kani::assume(initially <= $len);
+            unsafe {
+                FILES[0] = SymFile { content, len: $len, visible: initially, pos: 0, growing: true };
+                READ_BUDGET = $budget;
+                READ_CALLS = 0;
+            }
+            let file = unsafe { File::from_raw_fd(3) };
+            let mut it = ManuallyDrop::new(FollowFileIterator::new(BufReader::new(file)));
+            let i0 = ManuallyDrop::new(it.next());
+            let i1 = ManuallyDrop::new(if i0.is_some() { it.next() } else { None });
+            let i2 = ManuallyDrop::new(if i1.is_some() { it.next() } else { None });
+            assert!(item_is(&i0, &content, ref_line(&content, $len, 0)), "C10 the first item is the first completed line, byte for byte");
+            assert!(item_is(&i1, &content, ref_line(&content, $len, 1)), "C10 the second item is the second completed line, byte for byte");
+            assert!(item_is(&i2, &content, ref_line(&content, $len, 2)), "C10 the third item is the third completed line, byte for byte");
+            // nothing is lost: when the whole file was visible from the start, every completed line is delivered
+            if initially == $len {
+                assert!(i0.is_some() == ref_line(&content, $len, 0).is_some(), "C10 every completed line is delivered");
+                assert!(i1.is_some() == ref_line(&content, $len, 1).is_some(), "C10 every completed line is delivered");
+            }
+            kani::cover!(i1.is_some(), "follow: two lines delivered reachable");
+            kani::cover!(i0.is_some() && initially == 0, "follow: line delivered after appends reachable");
+        }
+    };
+}
+follow_harness!(c10_follow_len2, 2, 4, 6);
+follow_harness!(c10_follow_len3, 3, 5, 7);
+
+#[cfg(test)]
+#[path = "/verif/.cache/playback/helpers.rs"]
+mod playback_gen;
